@@ -11,6 +11,7 @@ use crate::checks::c01;
 use crate::checks::c05::ht_as_classical;
 use crate::checks::c17::{raw_from_json, raw_json};
 use crate::ir;
+use std::collections::BTreeSet;
 use crate::ops;
 use crate::runner::{Check, Outcome, Tier, hash64};
 use crate::safe_print::{self, Style};
@@ -159,6 +160,63 @@ pub enum FlagCase {
 
 pub struct C19;
 
+/// The symbolic constants of an emitted problem, read as the symbols of the input files. anthem renames a
+/// constant per problem: where the problem has a 0-ary predicate `z`, the symbols `z`, `z__s`, .. get one
+/// more `__s`; in a problem without that predicate they keep their names. One interpretation over the
+/// source symbols therefore has to be read through the problem's own renaming (C12 checks that the renaming
+/// is readable at all). A constant that is still spelled like a 0-ary predicate of its problem cannot come
+/// from the renaming: it is read as a symbol of its own, so that it stays distinguishable.
+fn read_constants(problems: Vec<anthem::verif::ProblemData>) -> Vec<anthem::verif::ProblemData> {
+    fn strip_all(s: &str) -> &str {
+        let mut t = s;
+        while let Some(u) = t.strip_suffix("__s") {
+            t = u;
+        }
+        t
+    }
+    fn term(t: &mut fol::GeneralTerm, zero: &BTreeSet<String>) {
+        if let fol::GeneralTerm::SymbolicTerm(fol::SymbolicTerm::Symbol(name)) = t {
+            if zero.contains(strip_all(name)) {
+                *name = match name.strip_suffix("__s") {
+                    Some(shorter) => shorter.to_string(),
+                    None => format!("{name}#unrenamed"),
+                };
+            }
+        }
+    }
+    fn formula(f: &mut fol::Formula, zero: &BTreeSet<String>) {
+        match f {
+            fol::Formula::AtomicFormula(fol::AtomicFormula::Atom(a)) => a.terms.iter_mut().for_each(|t| term(t, zero)),
+            fol::Formula::AtomicFormula(fol::AtomicFormula::Comparison(c)) => {
+                term(&mut c.term, zero);
+                c.guards.iter_mut().for_each(|g| term(&mut g.term, zero));
+            }
+            fol::Formula::AtomicFormula(_) => {}
+            fol::Formula::UnaryFormula { formula: inner, .. } | fol::Formula::QuantifiedFormula { formula: inner, .. } => formula(inner, zero),
+            fol::Formula::BinaryFormula { lhs, rhs, .. } => {
+                formula(lhs, zero);
+                formula(rhs, zero);
+            }
+        }
+    }
+    problems
+        .into_iter()
+        .map(|mut p| {
+            let mut sig = ir::Signature::default();
+            for f in &p.formulas {
+                ir::lower(&f.formula).signature(&mut sig);
+            }
+            let zero: BTreeSet<String> = sig.preds.iter().filter(|q| q.1 == 0).map(|q| q.0.clone()).collect();
+            if !zero.is_empty() {
+                for f in p.formulas.iter_mut() {
+                    formula(&mut f.formula, &zero);
+                }
+            }
+            p
+        })
+        .collect()
+}
+
 fn verdicts(
     build: &dyn Fn(&Flags) -> Option<Vec<anthem::verif::ProblemData>>,
     j: &Interp,
@@ -203,7 +261,7 @@ impl Check for C19 {
         .boxed()
     }
     fn rule(&self) -> String {
-        "external tasks (as in C02; one in three over the tricky names of C09/C12, where a symbolic constant is renamed because of a 0-ary predicate; comparisons also with the constant as leading term) and strong tasks over unrestricted random programs (unsafe rules, nested arithmetic) x one interpretation (guided as in C02; for strong tasks a random interpretation of the h-/t-copies with H subset-of T, in one case of three with the two copies of one predicate exchanged so that H is not a subset of T); the problems are generated under all 8 combinations of simplify / eq-break / decomposition; oracle: for each direction the verdict 'some problem has all axioms true and its conjecture false' (exact evaluation) is the same under every combination whenever definite; non-trivial = the axioms of some problem hold under some combination; distinct by task + interpretation".into()
+        "external tasks (as in C02; one in three over the tricky names of C09/C12, where a symbolic constant is renamed because of a 0-ary predicate - constants are read per problem as the source symbols they stand for; comparisons also with the constant as leading term) and strong tasks over unrestricted random programs (unsafe rules, nested arithmetic) x one interpretation (guided as in C02; for strong tasks a random interpretation of the h-/t-copies with H subset-of T, in one case of three with the two copies of one predicate exchanged so that H is not a subset of T); the problems are generated under all 8 combinations of simplify / eq-break / decomposition; oracle: for each direction the verdict 'some problem has all axioms true and its conjecture false' (exact evaluation) is the same under every combination whenever definite; non-trivial = the axioms of some problem hold under some combination; distinct by task + interpretation".into()
     }
     fn run(&self, case: &FlagCase) -> Outcome {
         let (vs, description, jtext) = match case {
@@ -275,7 +333,7 @@ impl Check for C19 {
                     j.preds.entry(("in3".to_string(), 3)).or_default();
                     j.preds.entry(("o3".to_string(), 3)).or_default();
                 }
-                let build = |flags: &Flags| ops::external_problems(&t, &ops::empty_outline(), flags, false).ok().map(|x| x.0);
+                let build = |flags: &Flags| ops::external_problems(&t, &ops::empty_outline(), flags, false).ok().map(|x| read_constants(x.0));
                 (verdicts(&build, &j, &pool), describe_external(&t), j.json().to_string())
             }
             FlagCase::Strong { left, right, mu, raw } => {
